@@ -15,6 +15,42 @@ import vcheck as V
 
 TRANSLATE = os.path.join(V.VERIF, "translate")
 
+
+def _run(cmd, cwd=None, env=None, timeout=300):
+    """V.run with a hard limit: a command that does not finish is killed, exit code 124, "TIMEOUT" appended to what it printed"""
+    import subprocess
+    try:
+        rc, out = V.run(cmd, cwd=cwd, env=env, timeout=timeout)
+        return rc, out
+    except subprocess.TimeoutExpired as e:
+        out = e.output if isinstance(e.output, str) else (e.output or b"").decode("utf-8", "replace")
+        return 124, (out or "") + "\nTIMEOUT: %s did not finish within %d s" % (os.path.basename(str(cmd[0])), timeout)
+
+
+def _report_hangs(ctx, prop, engine, hangs, meaning):
+    """histories / scenarios the driver's own watchdog gave up on: callers that never return"""
+    if not hangs:
+        return
+    h = hangs[0]
+    ctx._hang = {"engine": engine, "case": h.get("case") or h.get("scenario"), "mode": h.get("mode"), "goroutine_dump": h.get("goroutine_dump")}
+    rp = V.write_replay(ctx, engine + "-hang", {
+        "kind": "correspondence", "engine": engine, "theorem_or_correspondence": "watchdog: every call of every history returns",
+        "case": h.get("case") or h.get("scenario"), "mode": h.get("mode"), "goroutine_dump": h.get("goroutine_dump"),
+        "hung_histories": len(hangs), "repro": "bin/check replay <this file>"})
+    ctx.violations.append({"match": engine + ":hang", "replay": rp,
+                           "what": "%s: %s (%d hung; goroutine dump in the replay)" % (prop, meaning, len(hangs))})
+
+
+def _timed_out(ctx, prop, what, rc, out, case=None):
+    """rc 124: the driver itself hung (its own watchdogs should have prevented it): a violation without a named input"""
+    if rc != 124:
+        return False
+    rp = V.write_replay(ctx, "timeout-" + what, {"kind": "correspondence", "engine": what, "case": case, "output": out[-3000:],
+                                                  "theorem_or_correspondence": "every driver run finishes within its time limit"})
+    ctx.violations.append({"match": what + ":timeout", "replay": rp, "no_input": True,
+                           "what": "%s: the %s driver did not finish within its time limit (calls into the library that never return?)" % (prop, what)})
+    return True
+
 # known findings are read from KNOWN_FINDINGS.txt only (vcheck.load_known)
 OBL = os.path.join(V.COQ, "obligations")
 L_BROKER = "eventlogger.Broker.lock"
@@ -46,11 +82,11 @@ def _run_translator(ctx, part):
     d = os.path.join(ctx.work, "locks")
     os.makedirs(d, exist_ok=True)
     binp = os.path.join(ctx.work, "translate")
-    rc, out = V.run(["go", "build", "-o", binp, "."], cwd=TRANSLATE, env=V.GOENV, timeout=900)
+    rc, out = _run(["go", "build", "-o", binp, "."], cwd=TRANSLATE, env=V.GOENV, timeout=300)
     if rc != 0:
         return None, "translator does not build:\n" + out
     mod = V.harness_modfile(ctx)
-    rc, out = V.run([binp, "-dir", V.HARNESS, "-modfile", mod, "-out", d], env=V.GOENV, timeout=900)
+    rc, out = _run([binp, "-dir", V.HARNESS, "-modfile", mod, "-out", d], env=V.GOENV, timeout=300)
     ctx.log(out.strip()[-300:])
     if rc != 0:
         return None, "translator failed on the tree:\n" + out
@@ -135,7 +171,7 @@ def group_complaints(prop, complaints, info):
             g["what"] = "lock discipline: " + "; ".join("%s: %s %s" % (f, KIND_TEXT[k], s) for f, k, s in g["members"])
         elif g["class"] == "callback-under-lock":
             g["match"] = "locks:callback-under-lock:" + ",".join(sorted(set(f for f, _, _ in g["members"])))
-            g["what"] = "a callback that may call Broker.Send is reachable while a lock it takes is held: " + "; ".join(
+            g["what"] = "a lock is acquired again, or a callee / callback that may take it is reached, while it is held: " + "; ".join(
                 "%s: %s %s" % (f, KIND_TEXT[k], s) for f, k, s in g["members"])
         else:
             f, k, s = g["members"][0]
@@ -345,7 +381,7 @@ def parse_race_reports(text, info, scenario=None):
     return reports
 
 
-def run_race_scenarios(ctx, binp, scenarios, outdir, extra_args=(), jobs=6, timeout=900):
+def run_race_scenarios(ctx, binp, scenarios, outdir, extra_args=(), jobs=6, timeout=240):
     """run each scenario in its own process (own race log). Returns list of (scenario, summary or None, race log text, rc, output)"""
     from concurrent.futures import ThreadPoolExecutor
     os.makedirs(outdir, exist_ok=True)
@@ -358,7 +394,7 @@ def run_race_scenarios(ctx, binp, scenarios, outdir, extra_args=(), jobs=6, time
         json.dump({"case": sc}, open(f, "w"))
         env = dict(os.environ, VERIF_SEED=str(ctx.seed), GORACE="log_path=%s halt_on_error=0" % os.path.join(d, "race"))
         try:
-            rc, out = V.run([binp, "-replay", f, "-out", d] + list(extra_args), env=env, timeout=timeout)
+            rc, out = _run([binp, "-replay", f, "-out", d] + list(extra_args), env=env, timeout=timeout)
         except Exception as e:  # timeout
             rc, out = 124, "timeout: %s" % e
         log = ""
@@ -433,8 +469,10 @@ def _lockh(ctx, part):
     corpus = os.path.join(V.VERIF, "corpus", "C12", "lockh.jsonl")
     if os.path.exists(corpus):
         args += ["-corpus", corpus]
-    rc, out = V.run(args, env=dict(os.environ, VERIF_SEED=str(ctx.seed)), timeout=3000)
+    rc, out = _run(args, env=dict(os.environ, VERIF_SEED=str(ctx.seed)), timeout=240 if ctx.tier == "quick" else 1500)
     ctx.log(out.strip()[-300:])
+    if _timed_out(ctx, ctx.prop, "lockh", rc, out):
+        return None
     if rc != 0:
         rp = V.write_replay(ctx, "harness-run", {"kind": "correspondence", "output": out[-4000:]})
         ctx.violations.append({"match": "harness-crash", "replay": rp, "what": "lockh crashed", "no_input": True})
@@ -523,7 +561,7 @@ def _stress(ctx, part, info):
         ctx.violations.append({"match": "harness-build", "replay": rp, "what": "stressh no longer builds (-race) against the tree", "no_input": True})
         return None
     nrandom, events = ("6", "120") if ctx.tier == "quick" else ("240", "400")
-    rc, out = V.run([binp, "-list", "-random", nrandom, "-events", events], env=dict(os.environ, VERIF_SEED=str(ctx.seed)))
+    rc, out = _run([binp, "-list", "-random", nrandom, "-events", events], env=dict(os.environ, VERIF_SEED=str(ctx.seed)))
     scenarios = [json.loads(l) for l in out.splitlines() if l.startswith("{")]
     corpus = os.path.join(V.VERIF, "corpus", "C19", "stressh.jsonl")
     if os.path.exists(corpus):
@@ -532,8 +570,14 @@ def _stress(ctx, part, info):
         scenarios = [dict(sc, name="corpus-" + sc["name"]) for sc in pre] + scenarios
     runs = run_race_scenarios(ctx, binp, scenarios, os.path.join(ctx.work, "stress-out"), jobs=6 if ctx.tier == "quick" else 8)
     reports, pairs, sent, docs, integrity, panics, crashed = [], set(), 0, 0, [], [], []
+    hangs = []
     for sc, summ, log, rc, o in runs:
         reports += parse_race_reports(log, info, scenario=sc) if info else []
+        if summ is not None and summ.get("hung"):
+            hangs.append({"scenario": sc, "goroutine_dump": summ["hung"].get("goroutine_dump")})
+            continue
+        if _timed_out(ctx, "C19", "stressh", rc, o, sc):
+            continue
         if summ is None or rc not in (0, 66):
             crashed.append((sc, rc, o[-3000:]))
             continue
@@ -547,20 +591,26 @@ def _stress(ctx, part, info):
                  "scenario_names": [sc["name"] for sc in scenarios], "seed": ctx.seed,
                  "rule": "pipelines composed from the stock node catalogue (shared node instances, several pipelines per type), 2..8 senders through Broker.Send, "
                          "concurrent Broker.Reopen / FileSink.Reopen / rotation by size / encrypt.Filter.Rotate (API and in-band) / cloudevents Rotate / gated FlushAll, "
-                         "built with -race, one process per scenario; distinct_nontrivial = distinct scenarios (composition x controls) in which events reached a sink"})
+                         "built with -race, one process per scenario; output oracles: every sink's output is a sequence of whole JSON documents, no interleaved Write on a sink's writer, "
+                         "a sink fed only through an encrypt.Filter never shows a protected canary (and the plain pipeline's sink does), two FileSinks on one file hold every acknowledged event exactly once; distinct_nontrivial = distinct scenarios (composition x controls) in which events reached a sink"})
+    _report_hangs(ctx, "C19", "stressh", hangs, "a composition of stock nodes under concurrent Sends and control calls did not finish within the watchdog")
     for sc, rc, o in crashed:
         rp = V.write_replay(ctx, "stress-crash-" + sc["name"], {"kind": "correspondence", "engine": "stressh", "case": sc, "exit_code": rc, "output": o})
         ctx.violations.append({"match": "crash:" + sc["name"], "replay": rp, "what": "stress scenario %s crashed (exit %s)" % (sc["name"], rc)})
     seen_classes = set()
     ctx._integrity = integrity
     for sc, x in integrity:
-        cls = "concurrent-writes-on-a-sink's-writer" if "concurrent Write" in x else "sink-output-not-a-sequence-of-JSON-documents"
+        cls = ("concurrent-writes-on-a-sink's-writer" if "concurrent Write" in x else
+               "protected-plaintext-in-a-sink-behind-encrypt" if "protected field" in x or "redaction marker" in x else
+               "plain-sink-does-not-show-its-pipeline's-view" if "does not show the plaintext" in x else
+               "file-sinks-on-one-file-lose-or-duplicate-events" if "acknowledged events" in x else
+               "sink-output-not-a-sequence-of-JSON-documents")
         if cls in seen_classes:
             continue
         seen_classes.add(cls)
         rp = V.write_replay(ctx, "integrity-" + cls, {"kind": "correspondence", "engine": "stressh", "case": sc, "observed_value": x,
-                                                       "scenarios_affected": sorted(set(s2["name"] for s2, y in integrity))})
-        ctx.violations.append({"match": "integrity:" + cls, "replay": rp, "what": "corrupted sink output (%d scenarios): %s" % (len(set(s2["name"] for s2, y in integrity)), x)})
+                                                       "scenarios_affected": sorted(set(s2["name"] for s2, y in integrity)), "repro": "bin/check replay <this file>"})
+        ctx.violations.append({"match": "integrity:" + cls, "replay": rp, "what": "corrupted sink output: " + x})
     for sc, x in panics[:5]:
         rp = V.write_replay(ctx, "panic-" + sc["name"], {"kind": "correspondence", "engine": "stressh", "case": sc, "observed_value": x})
         ctx.violations.append({"match": "panic:" + x[:60], "replay": rp, "what": "panic under concurrent use: " + x})
@@ -677,13 +727,20 @@ def _conch_cases(ctx, part):
     corpus = os.path.join(V.VERIF, "corpus", "C04", "conch.jsonl")
     if os.path.exists(corpus):
         args += ["-corpus", corpus]
-    rc, out = V.run(args, env=dict(os.environ, VERIF_SEED=str(ctx.seed)), timeout=3000)
+    rc, out = _run(args, env=dict(os.environ, VERIF_SEED=str(ctx.seed)), timeout=240 if ctx.tier == "quick" else 1500)
     ctx.log(out.strip()[-300:])
+    if _timed_out(ctx, "C04", "conch", rc, out):
+        return
     if rc != 0:
         rp = V.write_replay(ctx, "harness-run", {"kind": "correspondence", "output": out[-4000:]})
         ctx.violations.append({"match": "harness-crash", "replay": rp, "what": "conch crashed", "no_input": True})
         return
     summ = json.load(open(os.path.join(d, "cases_summary.json")))
+    hp = os.path.join(d, "hangs.json")
+    if os.path.exists(hp):
+        _report_hangs(ctx, "C04", "conch", json.load(open(hp)) or [],
+                      "a concurrent history of Broker calls did not finish within the watchdog: some call never returned, so the callers never quiesce")
+    part["hung_histories"] = summ.get("hangs", 0)
     cases = {}
     for line in open(os.path.join(d, "cases.jsonl")):
         c = json.loads(line)
@@ -753,12 +810,16 @@ def _conch_race(ctx, part, info):
         os.makedirs(d, exist_ok=True)
         sc = {"mode": "race", "seed": ctx.seed * 100 + i, "cases": int(ncases)}
         env = dict(os.environ, VERIF_SEED=str(sc["seed"]), GORACE="log_path=%s halt_on_error=0" % os.path.join(d, "race"))
-        rc, o = V.run([binp, "-mode", "race", "-cases", ncases, "-out", d], env=env, timeout=2400)
+        rc, o = _run([binp, "-mode", "race", "-cases", ncases, "-out", d], env=env, timeout=240 if ctx.tier == "quick" else 1500)
         log = "".join(open(os.path.join(d, f), errors="replace").read() for f in sorted(os.listdir(d)) if f.startswith("race."))
-        return sc, rc, o, log
-    reports, hist, crashed = [], 0, []
+        hp = os.path.join(d, "hangs.json")
+        return sc, rc, o, log, (json.load(open(hp)) or []) if os.path.exists(hp) else []
+    reports, hist, crashed, hangs = [], 0, [], []
     with ThreadPoolExecutor(max_workers=nproc) as ex:
-        for sc, rc, o, log in ex.map(one, range(nproc)):
+        for sc, rc, o, log, hg in ex.map(one, range(nproc)):
+            hangs += hg
+            if _timed_out(ctx, "C04", "conch-race", rc, o, sc):
+                continue
             if rc not in (0, 66):
                 crashed.append((sc, rc, o[-3000:]))
                 continue
@@ -767,6 +828,10 @@ def _conch_race(ctx, part, info):
                 rp = V.write_replay(ctx, "race-panic-%d" % sc["seed"], {"kind": "correspondence", "engine": "conch", "case": sc, "output": o[-3000:]})
                 ctx.violations.append({"match": "panic:concurrent", "replay": rp, "what": "Broker panicked under concurrent use (-race run)"})
             reports += parse_race_reports(log, info, scenario=sc) if info else []
+    if not any(v["match"] == "conch:hang" for v in ctx.violations):
+        _report_hangs(ctx, "C04", "conch", hangs,
+                      "a concurrent history of Broker calls (with getters / Reopen / setters alongside) did not finish within the watchdog: some call never returned")
+    part["hung_histories"] = len(hangs)
     for sc, rc, o in crashed:
         rp = V.write_replay(ctx, "race-crash-%d" % sc["seed"], {"kind": "correspondence", "engine": "conch", "case": sc, "exit_code": rc, "output": o})
         ctx.violations.append({"match": "crash:conch-race", "replay": rp, "what": "conch -race run crashed (exit %s): %s" % (rc, o.strip().splitlines()[-1][:120] if o.strip() else "")})
@@ -794,6 +859,8 @@ def check_C04(ctx):
             ev = race_ev(group)
             if ev is None and any(k == "KCheckThenAct" for _, k, _ in group["members"]) and getattr(ctx, "_conch_failing", None):
                 ev = ctx._conch_failing[0]      # an atomicity defect shows as a delivery / linearizability mismatch, not as a race
+            if ev is None and group["class"] in ("callback-under-lock", "protocol") and getattr(ctx, "_hang", None):
+                ev = ctx._hang                  # a lock-protocol defect shows as a history that never finishes
             return ev
         report_static(ctx, "C04", st, evidence)
     explained = set(t for g in st["groups"] for t in g["tokens"])
@@ -875,7 +942,7 @@ def _replay_dynamic(ctx, eng, rec, path):
             return 1
         one = os.path.join(ctx.work, "replay_case.json")
         json.dump({"case": rec["case"]}, open(one, "w"))
-        rc, out = V.run([binp, "-replay", one, "-watchdog", "3s"])
+        rc, out = _run([binp, "-replay", one, "-watchdog", "3s"])
         print(out[-6000:])
         return 1 if rc != 0 else 0
     info = None
@@ -899,7 +966,7 @@ def _replay_dynamic(ctx, eng, rec, path):
             print(o[-1500:])
         else:
             env = dict(os.environ, VERIF_SEED=str(case.get("seed", ctx.seed)), GORACE="log_path=%s halt_on_error=0" % os.path.join(rd, "race"))
-            rc, o = V.run([binp, "-mode", "race", "-cases", str(case.get("cases", 40)), "-out", rd], env=env, timeout=2400)
+            rc, o = _run([binp, "-mode", "race", "-cases", str(case.get("cases", 40)), "-out", rd], env=env, timeout=600)
             print(o[-1500:])
             log = "".join(open(os.path.join(rd, f), errors="replace").read() for f in sorted(os.listdir(rd)) if f.startswith("race."))
         reports = parse_race_reports(log, info, scenario=case) if info else []
@@ -936,7 +1003,7 @@ def _replay_dynamic(ctx, eng, rec, path):
         json.dump({"case": case}, open(one, "w"))
         rd = os.path.join(cd, "rerun")
         os.makedirs(rd, exist_ok=True)
-        rc, out = V.run([binp, "-replay", one, "-repeat", "300", "-out", rd], timeout=1200)
+        rc, out = _run([binp, "-replay", one, "-repeat", "300", "-out", rd], timeout=600)
         summ = json.load(open(os.path.join(rd, "cases_summary.json")))
         mism, failures, cv = _eval_conc(ctx, summ["files"])
         bad = sorted(set(m[3] for m in mism if m[3] != "KLinBudget"))
